@@ -709,6 +709,19 @@ def _ends_in_documented_raise(body) -> bool:
     return bool(body) and isinstance(body[-1], ast.Raise) and (raised_name(body[-1]) or "").rsplit(".", 1)[-1] in DOCUMENTED
 
 
+def _visit_name_classes(ctx):
+    """{__visit_name__ constant: [classes declaring it]} (cached per run)."""
+    cache = ctx.__dict__.get("_c22_by_visit_name")
+    if cache is None:
+        cache = {}
+        for c in ctx.index.all_classes():
+            for v in c.assigns.get("__visit_name__", []):
+                if isinstance(v, ast.Constant) and isinstance(v.value, str):
+                    cache.setdefault(v.value, []).append(c)
+        ctx.__dict__["_c22_by_visit_name"] = cache
+    return cache
+
+
 def _universe(ctx, f, var):
     """Classes the variable can statically be, when the code says so: annotated parameter, or the element
     parameter of a `visit_<name>` method (dispatch by __visit_name__).  None = unknown."""
@@ -732,10 +745,9 @@ def _universe(ctx, f, var):
     if f.cls is not None and f.name.startswith("visit_") and len(f.params) > 1 and f.params[1] == var:
         vn = f.name[len("visit_"):]
         out = []
-        for c in ix.all_classes():
-            if any(isinstance(v, ast.Constant) and v.value == vn for v in c.assigns.get("__visit_name__", [])):
-                out.append(c)
-                out.extend(ix.subclasses(c))
+        for c in _visit_name_classes(ctx).get(vn, []):
+            out.append(c)
+            out.extend(ix.subclasses(c))
         return out or None
     return None
 
@@ -1198,6 +1210,521 @@ def r7(ctx):
                       f"stores {k!r} under a test of `{prm}`" + (f" via {via}" if via else ""), u.loc)
 
 
+# ------------------------------------------------------------------------------------------ R8 / R9 (round 2, str2-i)
+# Two members of the "typed value reaches a use that needs a narrower type" family.  Both start from what a construct's
+# CONSTRUCTOR accepts (a role coercion whose implementation hands strings through and otherwise keeps the expression:
+# coercions._ReturnsStringKey) and follow the value into the compiler:
+#   R8  members of a column-collection constraint (UNIQUE / PRIMARY KEY / ...) are *named column expressions* --
+#       `column("x")` is accepted -- so an attribute read on a member must be defined by every class the dominating
+#       isinstance() outcomes leave, unless the constraint class proves at attach time that its members are Columns;
+#   R9  keys / elements of clause attributes filled with such a coercion are `str | ClauseElement`; an identifier-preparer
+#       method whose parameter is annotated `str` receives them only under a positive isinstance(x, str) outcome.
+SCHEMA = "sql/schema.py"
+ELEMENTS = "sql/elements.py"
+COERCIONS = "sql/coercions.py"
+MEMBER_COLLECTIONS = ("columns", "c", "_columns", "columns_autoinc_first")   # API of ColumnCollectionMixin / PrimaryKeyConstraint
+_SEQ_COPIES = {"list", "tuple", "sorted", "iter", "reversed", "set", "frozenset"}
+
+
+def _strkey_roles(ctx):
+    """names of the roles whose coercion implementation derives from coercions._ReturnsStringKey: a str argument is
+    returned as is, anything else stays the (resolved) expression object."""
+    ix = ctx.index
+    base = ix.cls(f"{COERCIONS}::_ReturnsStringKey")
+    out = {c.name[:-len("Impl")] + "Role" for c in ix.subclasses(base) if c.name.endswith("Impl")}
+    ctx.require(out, "no coercion implementation derives from _ReturnsStringKey")
+    rm = ix.module("sql/roles.py")
+    missing = sorted(r for r in out if r not in rm.classes)
+    ctx.require(not missing, f"coercion impl(s) without a role of the same name: {missing}")
+    return out
+
+
+def _strkey_coercion(call, roles_):
+    """role name if `call` is coercions.expect(roles.<R>, x) with R a string-or-expression role and no as_key=True."""
+    if not isinstance(call, ast.Call):
+        return None
+    nm = call_name(call) or ""
+    if nm.rsplit(".", 1)[-1] != "expect" or not call.args:
+        return None
+    r = (dotted(call.args[0]) or "").rsplit(".", 1)[-1]
+    if r not in roles_:
+        return None
+    for k in call.keywords:
+        if k.arg == "as_key" and not (isinstance(k.value, ast.Constant) and k.value.value is False):
+            return None
+    return r
+
+
+def _guards_at(ctx, f, pm, n):
+    """[(atom expr, polarity)] of every branch outcome that dominates the evaluation of `n`: enclosing if / ternary /
+    and-or operands / comprehension conditions, and CFG edge guards (early exits)."""
+    guards = list(lexical_guards(pm, n, stop=f.node))
+    for gen, _ in _comp_scopes(pm, n, f.node):
+        guards.extend((t, True) for t in gen.ifs)
+    g = ctx.cfg(f)
+    for node in g.nodes_containing(n):
+        guards.extend(g.edge_guards(node))
+    out = []
+
+    def add(t, pol, depth=0):
+        for a, p2 in _atoms_ast(t, pol):
+            v = _single_binding(f.node, a.id) if isinstance(a, ast.Name) and depth < 3 else None
+            if isinstance(v, (ast.Call, ast.Compare, ast.BoolOp, ast.UnaryOp)):
+                add(v, p2, depth + 1)        # a boolean local bound once: `is_name = isinstance(k, str)`
+            else:
+                out.append((a, p2))
+    for t, pol in guards:
+        add(t, pol)
+    return out
+
+
+def _isinstance_of(ix, module, fnode, atom):
+    """(normalised text of the tested expression, [ClassInfo | builtin name]) for `isinstance(<expr>, C | (C1, ..))`."""
+    from ._helpers_rob_c1 import inline_locals
+    if not (isinstance(atom, ast.Call) and isinstance(atom.func, ast.Name) and atom.func.id == "isinstance" and len(atom.args) == 2):
+        return None
+    exprs = atom.args[1].elts if isinstance(atom.args[1], ast.Tuple) else [atom.args[1]]
+    classes = []
+    for e in exprs:
+        d = dotted(e)
+        c = ix.resolve(module, d) if d else None
+        if isinstance(c, ClassInfo):
+            classes.append(c)
+        elif d in ("str", "int", "bytes", "tuple", "list", "dict"):
+            classes.append(d)
+        else:
+            return None
+    return unparse(inline_locals(fnode, atom.args[0])), classes
+
+
+# ------------------------------------------------------------------------------------------ R8
+def _comparator_attrs(ctx):
+    """attribute names defined by any type Comparator class (ColumnElement.__getattr__ forwards to self.comparator)."""
+    cache = ctx.__dict__.get("_c22_comparator_attrs")
+    if cache is None:
+        ix = ctx.index
+        cache = set()
+
+        def rec(ci):
+            if ci.name.endswith("Comparator") or ci.name in ("ColumnOperators", "Operators"):
+                for k in ix.mro(ci):
+                    cache.update(_own_attrs(k))
+            for n in ci.nested.values():
+                rec(n)
+        for c in ix.all_classes():
+            rec(c)
+        ctx.__dict__["_c22_comparator_attrs"] = cache
+    return cache
+
+
+def _member_defines(ctx, ci: ClassInfo, attr: str):
+    """_defines() for column expressions: ColumnElement.__getattr__ is not an open-ended protocol, it forwards to the type's
+    Comparator and raises AttributeError for everything that one lacks.  True / False / None (cannot tell)."""
+    ix = ctx.index
+    unknown = deleg = False
+    for k in ix.mro(ci):
+        own = _own_attrs(k)
+        if attr in own:
+            return True
+        ga = k.methods.get("__getattr__")
+        if ga is not None:
+            fwd = [c for c in calls_in(ga.node) if call_name(c) == "getattr" and c.args and dotted(c.args[0]) == "self.comparator"]
+            if k.key == f"{ELEMENTS}::ColumnElement" and fwd:
+                deleg = True
+            else:
+                unknown = True
+        if "__getattribute__" in own:
+            unknown = True
+        for b, e in zip(k.bases, k.base_exprs):
+            if b is None and e.rsplit(".", 1)[-1].split("[")[0] not in _HARMLESS_BASES:
+                unknown = True
+    if unknown:
+        return None
+    if deleg and attr in _comparator_attrs(ctx):
+        return None
+    return False
+
+
+def _members_are_columns(ctx, k, named, column) -> str:
+    """Proof (as text) that every member of an attached constraint of class `k` is a Column: its `_set_parent` (attach is
+    part of construction: Table(..., K(...)) / append_constraint) runs a top-level loop over the member collection that
+    unconditionally READS an attribute only Column defines -- another member class fails there, before any compile()."""
+    ix = ctx.index
+    for cls in ix.mro(k):
+        m = cls.methods.get("_set_parent")
+        if m is None:
+            continue
+        for st in m.node.body:
+            if not (isinstance(st, ast.For) and isinstance(st.target, ast.Name)):
+                continue
+            it = st.iter
+            if not (isinstance(it, ast.Attribute) and isinstance(it.value, ast.Name) and it.value.id == "self"
+                    and it.attr in MEMBER_COLLECTIONS) and not (isinstance(it, ast.Name) and it.id == "self"):
+                continue
+            from ..astutil import own_exprs
+            for inner in st.body:
+                if any(isinstance(x, (ast.Continue, ast.Break, ast.Return)) for x in ast.walk(inner)):
+                    break
+                for part in own_exprs(inner):
+                    for x in ast.walk(part):
+                        if isinstance(x, ast.Attribute) and isinstance(x.ctx, ast.Load) and isinstance(x.value, ast.Name) \
+                                and x.value.id == st.target.id and _member_defines(ctx, named, x.attr) is False \
+                                and _member_defines(ctx, column, x.attr) is True:
+                            ctx.functions_analysed.add(m.key)
+                            return f"{m.qualname} reads `{st.target.id}.{x.attr}` on every member"
+    return ""
+
+
+def _collection_expr(fnode, e, cvars, depth=0) -> bool:
+    """`e` denotes the member collection of one of the constraint variables `cvars`."""
+    if depth > 4:
+        return False
+    if isinstance(e, ast.Name):
+        if e.id in cvars:
+            return True       # iterating the constraint itself
+        v = _single_binding(fnode, e.id)
+        return v is not None and _collection_expr(fnode, v, cvars, depth + 1)
+    if isinstance(e, ast.Attribute):
+        return isinstance(e.value, ast.Name) and e.value.id in cvars and e.attr in MEMBER_COLLECTIONS
+    if isinstance(e, ast.Call) and isinstance(e.func, ast.Name) and e.func.id in _SEQ_COPIES and len(e.args) == 1:
+        return _collection_expr(fnode, e.args[0], cvars, depth + 1)
+    if isinstance(e, ast.IfExp):
+        return _collection_expr(fnode, e.body, cvars, depth + 1) and _collection_expr(fnode, e.orelse, cvars, depth + 1)
+    return False
+
+
+def _member_expr(fnode, e, cvars, mvars, depth=0) -> bool:
+    """`e` denotes one member of such a collection: an indexed / first element, a loop variable, a local bound to one."""
+    if depth > 4:
+        return False
+    if isinstance(e, ast.Name):
+        if e.id in mvars:
+            return True
+        v = _single_binding(fnode, e.id)
+        return v is not None and _member_expr(fnode, v, cvars, mvars, depth + 1)
+    if isinstance(e, ast.Subscript) and not isinstance(e.slice, ast.Slice):
+        idx = e.slice.operand if isinstance(e.slice, ast.UnaryOp) else e.slice
+        return isinstance(idx, ast.Constant) and isinstance(idx.value, int) and _collection_expr(fnode, e.value, cvars)
+    if isinstance(e, ast.Call) and isinstance(e.func, ast.Name) and e.func.id == "next" and e.args:
+        return _collection_expr(fnode, e.args[0], cvars)
+    return False
+
+
+def _loop_members(fnode, cvars):
+    out = set()
+    for n in walk_local(fnode, into_nested=True):
+        if isinstance(n, (ast.For, ast.comprehension)) and isinstance(n.target, ast.Name) and _collection_expr(fnode, n.iter, cvars):
+            out.add(n.target.id)
+    return out
+
+
+@R.rule("C22-R8", floor=8, template="T-GUARD",
+        desc="DDL compilers: an attribute read on a MEMBER of the visited column-collection constraint (indexed / iterated "
+             "element of the constraint or of its .columns) is defined by every named-column class that the dominating "
+             "isinstance() outcomes leave possible -- the constructor accepts any named column expression, e.g. "
+             "column('x') -- unless the constraint class itself proves at attach time that its members are Columns")
+def r8(ctx):
+    from ._helpers_rob_c1 import inline_locals
+    ix = ctx.index
+    mixin = ix.cls(f"{SCHEMA}::ColumnCollectionMixin")
+    named = ix.cls(f"{ELEMENTS}::NamedColumn")
+    column = ix.cls(f"{SCHEMA}::Column")
+    roles_ = _strkey_roles(ctx)
+    init = mixin.methods.get("__init__")
+    accepted = sorted({r for c in calls_in(init.node) for r in [_strkey_coercion(c, roles_)] if r}) if init is not None else []
+    ctx.functions_analysed.add(init.key if init is not None else mixin.key)
+    ctx.require(accepted, f"{mixin.key}.__init__ no longer coerces its members with a string-or-expression role: what a "
+                          f"constraint member can be is not understood")
+    role = ix.cls(f"sql/roles.py::{accepted[0]}")
+    ctx.require(ix.is_subclass(named, role) and ix.is_subclass(column, named),
+                f"NamedColumn / Column no longer carry {accepted[0]}: member universe not understood")
+    universe = [named] + [c for c in ix.subclasses(named)]
+    ddl = ix.cls(f"{COMP}::DDLCompiler")
+    proofs = {}
+
+    def judge(f, cvars, mvars, label, column_only, depth):
+        """attribute reads on members inside `f`; cvars: names bound to the constraint, mvars: names bound to a member."""
+        pm = None
+        mv = set(mvars) | _loop_members(f.node, cvars)
+        seen_attr = {}
+        for n in walk_local(f.node, into_nested=True):
+            if isinstance(n, ast.Attribute) and isinstance(n.ctx, ast.Load) and _member_expr(f.node, n.value, cvars, mv):
+                pm = pm or parent_map(f.node)
+                ctx.functions_analysed.add(f.key)
+                who = unparse(inline_locals(f.node, n.value))
+                pos, neg = [], []
+                for atom, pol in _guards_at(ctx, f, pm, n):
+                    ia = _isinstance_of(ix, f.module, f.node, atom)
+                    if ia is not None and ia[0] == who:
+                        alt = [c for c in ia[1] if isinstance(c, ClassInfo)]
+                        if alt not in (pos if pol else neg):
+                            (pos if pol else neg).append(alt)
+                left = [c for c in universe
+                        if all(any(ix.is_subclass(c, a) or c is a for a in alt) for alt in pos)
+                        and not any(ix.is_subclass(c, a) or c is a for alt in neg for a in alt)
+                        and (not column_only or c is column or ix.is_subclass(c, column))]
+                lack = [c for c in left if _member_defines(ctx, c, n.attr) is False]
+                lack.sort(key=lambda c: (c.name != "ColumnClause", len(ix.mro(c)), c.key))
+                seen_attr[n.attr] = seen_attr.get(n.attr, 0) + 1
+                key = f"{f.key}:member.{n.attr}" + (f"#{seen_attr[n.attr]}" if seen_attr[n.attr] > 1 else "")
+                why = ("members proven to be Column objects: " + column_only) if column_only else \
+                    ("under " + " and ".join("isinstance(.., " + "/".join(c.name for c in alt) + ")" for alt in pos) if pos
+                     else "defined by every named column expression")
+                ctx.check(not lack, key,
+                          f"`{unparse(n)}` reads `.{n.attr}` on a member of the {label} (`{who}`) "
+                          + ("with no class test" if not pos else "under " + " and ".join("isinstance(.., " + "/".join(c.name for c in alt) + ")" for alt in pos))
+                          + f": the constructor coerces members with roles.{accepted[0]}, which keeps any named column expression, and "
+                          f"{lack[0].name if lack else ''} (e.g. `column('x')` in UniqueConstraint(column('x'))) has no attribute `{n.attr}` -- compile() / "
+                          f"create_all() on this dialect raises AttributeError instead of emitting the constraint; read it under "
+                          f"isinstance(<member>, Column / SchemaItem)",
+                          f"`.{n.attr}`: {why}", f"{f.module.path}:{n.lineno}")
+            elif depth < 1 and isinstance(n, ast.Call) and isinstance(n.func, ast.Attribute) and isinstance(n.func.value, ast.Name) \
+                    and n.func.value.id == "self" and f.cls is not None:
+                # a member / the constraint handed to a helper method of the same compiler
+                tgt = ix.resolve_method(f.cls, n.func.attr)
+                if tgt is None or tgt.node is f.node:
+                    continue
+                params = [p for p in tgt.params if p not in ("self", "cls")]
+                c2, m2 = set(), set()
+                for p_, arg in list(zip(params, n.args)) + [(k.arg, k.value) for k in n.keywords if k.arg in params]:
+                    if isinstance(arg, ast.Starred):
+                        break
+                    if _member_expr(f.node, arg, cvars, mv):
+                        m2.add(p_)
+                    elif isinstance(arg, ast.Name) and arg.id in cvars:
+                        c2.add(p_)
+                if (m2 or c2) and tgt.name != f.name and not tgt.name.startswith("visit_") and \
+                        not any(_universe(ctx, tgt, p_) is not None for p_ in c2):
+                    judge(tgt, c2, m2, label, column_only, depth + 1)
+
+    done = set()
+    for cls in [ddl] + sorted(ix.subclasses(ddl), key=lambda c: c.key):
+        for name, f in sorted(cls.methods.items()):
+            if f.key in done:
+                continue
+            done.add(f.key)
+            own = [p for p in f.params if p not in ("self", "cls")]
+            for p_ in own[:2]:
+                uni = _universe(ctx, f, p_)
+                if not uni or not all(ix.is_subclass(c, mixin) for c in uni):
+                    continue
+                if not all(ix.is_subclass(c, ix.cls(f"{SCHEMA}::Constraint")) for c in uni):
+                    continue        # Index: its members are judged as expressions, not as constraint members
+                roots = [c for c in uni if not any(ix.is_subclass(c, o) for o in uni if o is not c)]
+                proof = ""
+                if roots:
+                    ps = []
+                    for r_ in roots:
+                        if r_.key not in proofs:
+                            proofs[r_.key] = _members_are_columns(ctx, r_, named, column)
+                        ps.append(proofs[r_.key])
+                    proof = ps[0] if all(ps) else ""
+                judge(f, {p_}, set(), "/".join(sorted(r_.name for r_ in roots)) + " being compiled", proof, 0)
+
+
+# ------------------------------------------------------------------------------------------ R9
+def _dual_attrs(ctx, roles_):
+    """{attribute name: {('keys'|'values'|'elems'|'pair0', role, class key)}} for `self.<attr> = <container built from
+    coercions.expect(roles.<R>, x)>` anywhere in the package (R a string-or-expression role, no as_key=True)."""
+    cache = ctx.__dict__.setdefault("_c22_dual_attrs", None)
+    if cache is not None:
+        return cache
+    out = {}
+    for mod in ctx.index.all_modules():
+        if "coercions.expect" not in mod.source or not any(r in mod.source for r in roles_):
+            continue
+        for cls in mod.classes.values():
+            for f in cls.methods.values():
+                for st in walk_local(f.node, into_nested=False):
+                    if not isinstance(st, (ast.Assign, ast.AnnAssign)) or st.value is None:
+                        continue
+                    tgts = st.targets if isinstance(st, ast.Assign) else [st.target]
+                    attrs = [t.attr for t in tgts if isinstance(t, ast.Attribute) and isinstance(t.value, ast.Name) and t.value.id == "self"]
+                    if not attrs:
+                        continue
+                    v = st.value
+                    found = []
+                    if isinstance(v, ast.DictComp):
+                        found += [("keys", _strkey_coercion(v.key, roles_)), ("values", _strkey_coercion(v.value, roles_))]
+                    elif isinstance(v, (ast.ListComp, ast.SetComp, ast.GeneratorExp)):
+                        found.append(("elems", _strkey_coercion(v.elt, roles_)))
+                        if isinstance(v.elt, ast.Tuple) and v.elt.elts:
+                            found.append(("pair0", _strkey_coercion(v.elt.elts[0], roles_)))
+                    elif isinstance(v, (ast.List, ast.Tuple)):
+                        found += [("elems", _strkey_coercion(e, roles_)) for e in v.elts]
+                    for kind, role in found:
+                        if role:
+                            ctx.functions_analysed.add(f.key)
+                            for a in attrs:
+                                out.setdefault(a, set()).add((kind, role, cls.key))
+    ctx.__dict__["_c22_dual_attrs"] = out
+    return out
+
+
+def _str_sinks(ctx):
+    """{method name: parameter name} for IdentifierPreparer methods whose first parameter is annotated `str`."""
+    prep = ctx.index.cls(f"{COMP}::IdentifierPreparer")
+    out = {}
+    for name, m in prep.methods.items():
+        a = m.node.args
+        ps = (a.posonlyargs + a.args)[1:]
+        if ps and ps[0].annotation is not None and unparse(ps[0].annotation).strip("'\"") == "str":
+            out[name] = ps[0].arg
+    return out
+
+
+class _DualFlow:
+    """which local names of a function hold a `str | ClauseElement` value that comes from a dual attribute"""
+
+    def __init__(self, fnode, dual, seeds=None):
+        self.fnode, self.dual = fnode, dual
+        self.vals = dict(seeds or {})          # name -> origin label
+        changed, rounds = True, 0
+        while changed and rounds < 4:
+            changed, rounds = False, rounds + 1
+            for n in walk_local(fnode, into_nested=True):
+                if isinstance(n, (ast.For, ast.comprehension)):
+                    for nm, lab in self._bind_loop(n.target, n.iter):
+                        if nm not in self.vals:
+                            self.vals[nm] = lab
+                            changed = True
+                elif isinstance(n, ast.Assign) and len(n.targets) == 1 and isinstance(n.targets[0], ast.Name):
+                    lab = self.value(n.value)
+                    if lab and n.targets[0].id not in self.vals and _single_binding(fnode, n.targets[0].id) is not None:
+                        self.vals[n.targets[0].id] = lab
+                        changed = True
+
+    def container(self, e, depth=0):
+        """(attr, kinds) when `e` is a container whose keys / elements are dual values."""
+        if depth > 5:
+            return None
+        if isinstance(e, ast.Attribute) and e.attr in self.dual:
+            return e.attr, {k for k, _r, _c in self.dual[e.attr]}, "direct"
+        if isinstance(e, ast.Name):
+            v = _single_binding(self.fnode, e.id)
+            return self.container(v, depth + 1) if v is not None else None
+        if isinstance(e, ast.Call):
+            if isinstance(e.func, ast.Name) and e.func.id in _SEQ_COPIES | {"dict", "OrderedDict"} and len(e.args) == 1:
+                return self.container(e.args[0], depth + 1)
+            if isinstance(e.func, ast.Attribute) and e.func.attr in ("copy", "items", "keys", "values") and not e.args:
+                c = self.container(e.func.value, depth + 1)
+                if c is None:
+                    return None
+                return c[0], c[1], (e.func.attr if e.func.attr != "copy" else c[2])
+        return None
+
+    def _bind_loop(self, target, it):
+        c = self.container(it)
+        if c is None:
+            return []
+        attr, kinds, view = c
+        out = []
+        if isinstance(target, ast.Name):
+            if (view in ("direct", "keys") and kinds & {"keys", "elems"}) or (view == "values" and "values" in kinds):
+                out.append((target.id, f"{attr}:{'key' if 'keys' in kinds and view != 'values' else 'element'}"))
+        elif isinstance(target, (ast.Tuple, ast.List)) and target.elts:
+            first, rest = target.elts[0], target.elts[1:]
+            if isinstance(first, ast.Name) and ((view == "items" and "keys" in kinds) or (view == "direct" and "pair0" in kinds)):
+                out.append((first.id, f"{attr}:key"))
+            if view == "items" and "values" in kinds and rest and isinstance(rest[0], ast.Name):
+                out.append((rest[0].id, f"{attr}:value"))
+        return out
+
+    def value(self, e):
+        if isinstance(e, ast.Name):
+            return self.vals.get(e.id)
+        return None
+
+
+@R.rule("C22-R9", floor=4, template="T-GUARD",
+        desc="compile units: a key / element of a clause attribute that the construct fills with a string-or-expression "
+             "role coercion (coercions._ReturnsStringKey: DMLColumnRole, DDLConstraintColumnRole, ...) is `str | "
+             "ClauseElement`; it is passed to an IdentifierPreparer method whose parameter is annotated `str` (quote, "
+             "quote_identifier, ...) only under a dominating positive isinstance(x, str) outcome")
+def r9(ctx):
+    from ._helpers_rob_c1 import inline_locals
+    ix = ctx.index
+    roles_ = _strkey_roles(ctx)
+    dual = _dual_attrs(ctx, roles_)
+    ctx.require(dual, "no construct attribute is filled from a string-or-expression role coercion: anchor moved")
+    sinks = _str_sinks(ctx)
+    ctx.require("quote" in sinks, "IdentifierPreparer.quote(ident: str) not found")
+    prep = ix.cls(f"{COMP}::IdentifierPreparer")
+
+    def sink_of(f, c):
+        if not (isinstance(c.func, ast.Attribute) and c.func.attr in sinks and c.args):
+            # `quote = self.preparer.quote; quote(k)`
+            if isinstance(c.func, ast.Name) and c.args:
+                v = _single_binding(f.node, c.func.id)
+                if isinstance(v, ast.Attribute) and v.attr in sinks and (dotted(v.value) or "").endswith("preparer"):
+                    return v.attr
+            return None
+        recv = dotted(inline_locals(f.node, c.func.value)) or ""
+        if recv.endswith("preparer") or (recv == "self" and f.cls is not None and (f.cls is prep or ix.is_subclass(f.cls, prep))):
+            return c.func.attr
+        return None
+
+    def judge(f, seeds, depth):
+        flow = _DualFlow(f.node, dual, seeds)
+        if not flow.vals:
+            return
+        pm = None
+        count = {}
+        for c in calls_in(f.node, into_nested=True):
+            sk = sink_of(f, c)
+            if sk is not None:
+                lab = flow.value(c.args[0])
+                if lab is None:
+                    continue
+                pm = pm or parent_map(f.node)
+                ctx.functions_analysed.add(f.key)
+                who = unparse(inline_locals(f.node, c.args[0]))
+                ok, odd = False, []
+                for atom, pol in _guards_at(ctx, f, pm, c):
+                    ia = _isinstance_of(ix, f.module, f.node, atom)
+                    if ia is None or ia[0] != who:
+                        continue
+                    if pol and ia[1] == ["str"]:
+                        ok = True
+                    elif not (not pol and "str" in ia[1]):
+                        odd.append(unparse(atom) if pol else f"not {unparse(atom)}")
+                shown = f"{sk}({lab})"
+                count[shown] = count.get(shown, 0) + 1
+                key = f"{f.key}:{shown}" + (f"#{count[shown]}" if count[shown] > 1 else "")
+                if not ok and odd:
+                    ctx.error(f"{key}: `{unparse(c)}` is guarded by {odd}, a class test this rule does not understand")
+                attr, what = lab.split(":")[0], lab.split(":")[1]
+                src = sorted(dual.get(attr, []))
+                ctx.check(ok, key,
+                          f"`{unparse(c)}` passes the {what} of `.{attr}` to IdentifierPreparer.{sk}({sinks[sk]}: str) with no "
+                          f"dominating isinstance({who}, str): the construct fills `.{attr}` with coercions.expect(roles.{src[0][1] if src else '?'}, ..), "
+                          f"which keeps column objects as they are (only strings stay strings), so a column object that is not "
+                          f"resolved earlier reaches str-only code and compile() raises AttributeError ('... has no attribute "
+                          f"lower') instead of rendering it with self.process()",
+                          f"under isinstance({who}, str)", f"{f.module.path}:{c.lineno}")
+            elif depth < 2 and isinstance(c.func, ast.Attribute) and isinstance(c.func.value, ast.Name) and c.func.value.id == "self" \
+                    and f.cls is not None:
+                tgt = ix.resolve_method(f.cls, c.func.attr)
+                if tgt is None or tgt.node is f.node or c.func.attr in ("process",):
+                    continue
+                params = [p for p in tgt.params if p not in ("self", "cls")]
+                s2 = {}
+                for p_, arg in list(zip(params, c.args)) + [(k.arg, k.value) for k in c.keywords if k.arg in params]:
+                    lab = flow.value(arg) if not isinstance(arg, ast.Starred) else None
+                    if lab:
+                        s2[p_] = lab
+                if s2:
+                    judge(tgt, s2, depth + 1)
+
+    names = tuple(dual)
+    for f in _units(ctx):
+        if not any(a in f.module.source for a in names):
+            continue
+        if not any(isinstance(n, ast.Attribute) and n.attr in dual for n in ast.walk(f.node)):
+            continue
+        judge(f, {}, 0)
+
+
 # ------------------------------------------------------------------------------------------ self test
 R.mutant("r1-raises-keyerror", COMP,
          sub('            raise exc.CompileError(\n                "Unary expression has no operator or modifier"\n            )',
@@ -1325,3 +1852,70 @@ R.mutant("benign-r2-handler-catches-lookuperror", COMP,
                   "                raise exc.UnsupportedCompilationError(\n                    self, clauselist.operator\n                ) from err\n"), None)
 R.mutant("benign-r2-constant-key-through-local", COMP,
          sub("            separator = OPERATORS[operators.and_]\n", "            and_op = operators.and_\n            separator = OPERATORS[and_op]\n"), None)
+
+# --- round-2 seeds (str2-i): R8 constraint members, R9 str-or-expression values at str-only preparer methods
+SQLITE = "dialects/sqlite/base.py"
+PG = "dialects/postgresql/base.py"
+_UQ_MEMBER = ('            col1 = list(constraint)[0]\n            if isinstance(col1, schema.SchemaItem):\n'
+              '                on_conflict_clause = list(constraint)[0].dialect_options[\n                    "sqlite"\n'
+              '                ]["on_conflict_unique"]\n')
+R.mutant("r8-seed3-unique-member-guard-dropped", SQLITE,
+         sub(_UQ_MEMBER, '            col1 = list(constraint)[0]\n            on_conflict_clause = col1.dialect_options["sqlite"][\n'
+                         '                "on_conflict_unique"\n            ]\n'), "C22-R8")
+R.mutant("r8-unique-member-guard-names-class-without-the-attribute", SQLITE,
+         sub("            if isinstance(col1, schema.SchemaItem):\n", "            if isinstance(col1, elements.ColumnClause):\n"), "C22-R8")
+R.mutant("r8-unique-body-reads-column-only-attribute", COMP,
+         sub('            ", ".join(self.preparer.quote(c.name) for c in constraint),\n',
+             '            ", ".join(\n                self.preparer.quote(c.name) for c in constraint if not c.system\n            ),\n'), "C22-R8")
+R.mutant("r8-primary-key-attach-skips-non-columns", SCHEMA,
+         sub("        for c in self._columns:\n            c.primary_key = True\n            if c._user_defined_nullable is NULL_UNSPECIFIED:\n",
+             "        for c in self._columns:\n            if not isinstance(c, Column):\n                continue\n"
+             "            c.primary_key = True\n            if c._user_defined_nullable is NULL_UNSPECIFIED:\n"), "C22-R8")
+R.mutant("benign-r8-unique-member-guard-inverted-alias-reused", SQLITE,
+         sub(_UQ_MEMBER, '            col1 = list(constraint)[0]\n            if not isinstance(col1, schema.SchemaItem):\n                pass\n'
+                         '            else:\n                on_conflict_clause = col1.dialect_options["sqlite"][\n'
+                         '                    "on_conflict_unique"\n                ]\n'), None)
+R.mutant("benign-r8-unique-member-option-through-helper", SQLITE,
+         chain(sub(_UQ_MEMBER, '            on_conflict_clause = self._member_option(\n                list(constraint)[0], "on_conflict_unique"\n            )\n'),
+               sub("    def visit_unique_constraint(self, constraint, **kw):\n",
+                   "    def _member_option(self, col, key):\n        if isinstance(col, schema.SchemaItem):\n"
+                   "            return col.dialect_options[\"sqlite\"][key]\n        return None\n\n"
+                   "    def visit_unique_constraint(self, constraint, **kw):\n")), None)
+R.mutant("benign-r8-unique-member-guard-in-the-condition", SQLITE,
+         sub("        if on_conflict_clause is None and len(constraint.columns) == 1:\n" + _UQ_MEMBER,
+             "        if (\n            on_conflict_clause is None\n            and len(constraint.columns) == 1\n"
+             "            and isinstance(list(constraint)[0], sa_schema.Column)\n        ):\n"
+             "            on_conflict_clause = list(constraint)[0].dialect_options[\n                \"sqlite\"\n"
+             "            ][\"on_conflict_unique\"]\n"), None)
+
+_PG_KEY = ("                key_text = (\n                    self.preparer.quote(k)\n                    if isinstance(k, str)\n"
+           "                    else self.process(k, use_schema=False)\n                )\n")
+_SQLITE_KEY = ("                key_text = (\n                    self.preparer.quote(k)\n                    if isinstance(k, str)\n"
+               "                    else self.process(k, **set_kw)\n                )\n")
+R.mutant("r9-seed4-pg-extra-set-key-quoted-unconditionally", PG,
+         sub(_PG_KEY, "                key_text = self.preparer.quote(k)\n"), "C22-R9")
+R.mutant("r9-sqlite-extra-set-key-quoted-unconditionally", SQLITE,
+         sub(_SQLITE_KEY, "                key_text = self.preparer.quote(k)\n"), "C22-R9")
+R.mutant("r9-pg-target-element-test-inverted", PG,
+         sub("                    self.preparer.quote(c)\n                    if isinstance(c, str)\n",
+             "                    self.preparer.quote(c)\n                    if not isinstance(c, str)\n"), "C22-R9")
+R.mutant("r9-pg-set-key-quoted-through-bound-method", PG,
+         sub(_PG_KEY, "                quote = self.preparer.quote\n                key_text = quote(k)\n"), "C22-R9")
+R.mutant("benign-r9-pg-set-key-ternary-inverted", PG,
+         sub(_PG_KEY, "                key_text = (\n                    self.process(k, use_schema=False)\n"
+                      "                    if not isinstance(k, str)\n                    else self.preparer.quote(k)\n                )\n"), None)
+R.mutant("benign-r9-pg-set-key-flag-and-statement-branch", PG,
+         sub(_PG_KEY, "                is_name = isinstance(k, str)\n                if is_name:\n"
+                      "                    key_text = self.preparer.quote(k)\n                else:\n"
+                      "                    key_text = self.process(k, use_schema=False)\n"), None)
+R.mutant("benign-r9-pg-set-key-through-helper", PG,
+         chain(sub(_PG_KEY, "                key_text = self._render_set_key(k)\n"),
+               sub("    def visit_on_conflict_do_update(self, on_conflict, **kw):\n",
+                   "    def _render_set_key(self, key):\n        if isinstance(key, str):\n            return self.preparer.quote(key)\n"
+                   "        return self.process(key, use_schema=False)\n\n"
+                   "    def visit_on_conflict_do_update(self, on_conflict, **kw):\n")), None)
+R.mutant("r9-pg-set-key-helper-without-the-test", PG,
+         chain(sub(_PG_KEY, "                key_text = self._render_set_key(k)\n"),
+               sub("    def visit_on_conflict_do_update(self, on_conflict, **kw):\n",
+                   "    def _render_set_key(self, key):\n        return self.preparer.quote(key)\n\n"
+                   "    def visit_on_conflict_do_update(self, on_conflict, **kw):\n")), "C22-R9")
